@@ -18,6 +18,7 @@ class SessionProp(Prop):
     quick_n = 1500
     thorough_n = 40000
     gen_role = None
+    unenc = 0.0     # share of send calls with an unencodable text argument (properties that opt in)
 
     def corpus(self):
         return sessions.boundary_histories(self.gen_role)
@@ -25,20 +26,42 @@ class SessionProp(Prop):
     def generate(self, rng, n, tier):
         out = []
         for _ in range(n):
-            out.append(sessions.gen_history(rng, role=self.gen_role))
+            out.append(sessions.gen_history(rng, role=self.gen_role, unenc=self.unenc))
         return out
 
     def model_requests(self, c):
-        return [[110, c["role"], c["calls"]]]
+        # calls with an unencodable argument are not put to the model (its texts are octet lists that always have a
+        # UTF-8 reading): the expected behaviour is that such a call changes nothing, see normalize_model
+        skip = set(sessions.unenc_indices(c))
+        return [[110, c["role"], [x for i, x in enumerate(c["calls"]) if i not in skip]]]
 
     def normalize_model(self, c, answers):
         a = answers[0]
         if isinstance(a, str):
             return [a]
-        return [[[o, snap[:2]] for o, snap in a]]
+        rows = [[o, snap[:2]] for o, snap in a]
+        skip = set(sessions.unenc_indices(c))
+        if skip:
+            out, prev, it = [], [0, b""], iter(rows)
+            seen = c.get("_unenc_outcomes") or {}
+            for i in range(len(c["calls"])):
+                if i in skip:
+                    # refused by a state gate (LDAPError) or by the encoder (its own error): either way refused,
+                    # and nothing may have changed; an accepted call shows up as a difference
+                    o = seen.get(i)
+                    o = o if (o == [4] or (o and o[0] == 6)) else list(sessions.REFUSED_UNENC)
+                    out.append([o, list(prev)])
+                else:
+                    r = next(it)
+                    out.append(r)
+                    prev = r[1]
+            rows = out
+        return [rows]
 
     def impl_run(self, c):
-        return [sessions.run_history(c["role"], c["calls"])]
+        t = sessions.run_history(c["role"], c["calls"])
+        c["_unenc_outcomes"] = {i: t[i][0] for i in sessions.unenc_indices(c)}
+        return [t]
 
     def classify(self, c):
         return ("client" if c["role"] == 0 else "server") + f"-len{min(len(c['calls']) // 4 * 4, 12)}"
